@@ -10,7 +10,7 @@
 From Coq Require Import String Ascii List Bool Arith Lia ZArith.
 Import ListNotations.
 Require Import Generated PyBase PyStr Lex Format Symbols SymbolsFacts Split SplitFacts Merge ParseEq ParseContribFacts GLex GLexFacts GNorm GNormFacts.
-Require Import Layout LayoutNorm LayoutLex LayoutSplit GraphEvalWf Denorm DenormInt DenormLex.
+Require Import Layout LayoutNorm LayoutLex LayoutSplit ContSplit GraphEvalWf Denorm DenormInt DenormLex.
 Open Scope string_scope.
 Open Scope nat_scope.
 
@@ -23,8 +23,6 @@ Qed.
 
 (* ================================================================== str.format on a template of "{}" fields *)
 Definition ftoks (l : list ntok) : list ftok := map (fun x => match x with NChr c => FLit c | _ => FAuto end) l.
-Definition nobrace (l : list ntok) : bool :=
-  forallb (fun x => match x with NChr c => negb (Ascii.eqb c "{") && negb (Ascii.eqb c "}") | _ => true end) l.
 
 Lemma ftokens_ttemplate l : nobrace l = true -> ftokens MText (ttemplate l) = ftoks l.
 Proof.
@@ -73,21 +71,111 @@ Proof. induction l as [|x l IH]; [reflexivity|]. destruct x; cbn [weave nflat nt
 Lemma weave_code l : weave tok_code l = cflat l.
 Proof. induction l as [|x l IH]; [reflexivity|]. destruct x; cbn [weave cflat]; rewrite IH; reflexivity. Qed.
 
+(* ================================================================== the normaliser on token lists *)
+(* the three substitutions of normalise_template, acting on a token list: a term stands for "{}" (no blank, no bracket) *)
+Fixpoint tws (f : bool) (l : list ntok) : list ntok :=
+  match l with
+  | [] => []
+  | NChr c :: r => if is_space c then (if f then tws true r else NChr " " :: tws true r) else NChr c :: tws false r
+  | x :: r => x :: tws false r
+  end.
+Fixpoint topen (f : bool) (l : list ntok) : list ntok :=
+  match l with
+  | [] => []
+  | NChr c :: r => if f && is_space c then topen true r else NChr c :: topen (Ascii.eqb c "(") r
+  | x :: r => x :: topen false r
+  end.
+Definition starts_close (l : list ntok) : bool := match l with NChr c :: _ => Ascii.eqb c ")" | _ => false end.
+Fixpoint tclose (l : list ntok) : list ntok :=
+  match l with
+  | [] => []
+  | NChr c :: r => let r' := tclose r in if is_space c && starts_close r' then r' else NChr c :: r'
+  | x :: r => x :: tclose r
+  end.
+Definition nrm (l : list ntok) : list ntok := tclose (topen false (tws false l)).
+
+Lemma brace_facts : is_space "{" = false /\ is_space "}" = false /\ Ascii.eqb "{" "(" = false /\ Ascii.eqb "}" "(" = false.
+Proof. vm_compute. repeat split; reflexivity. Qed.
+
+Lemma sub_ws_tokens l : forall f, sub_ws f (ttemplate l) = ttemplate (tws f l).
+Proof.
+  destruct brace_facts as (B1 & B2 & _ & _).
+  induction l as [|x l IH]; intros f; [reflexivity|].
+  destruct x as [name i|name|k|body|c]; cbn [ttemplate tws].
+  1-4: cbn [append sub_ws]; rewrite B1, B2, IH; reflexivity.
+  cbn [sub_ws]. destruct (is_space c); [destruct f|]; cbn [ttemplate]; rewrite IH; reflexivity.
+Qed.
+Lemma sub_open_tokens l : forall f, sub_open f (ttemplate l) = ttemplate (topen f l).
+Proof.
+  destruct brace_facts as (B1 & B2 & B3 & B4).
+  induction l as [|x l IH]; intros f; [reflexivity|].
+  destruct x as [name i|name|k|body|c]; cbn [ttemplate topen].
+  1-4: cbn [append sub_open]; rewrite B1, B2, B3, B4, !andb_false_r, IH; reflexivity.
+  cbn [sub_open]. destruct (f && is_space c); cbn [ttemplate]; rewrite IH; reflexivity.
+Qed.
+Lemma head_close_template l : head_is ")" (ttemplate l) = starts_close l.
+Proof. destruct l as [|x l]; [reflexivity|]. destruct x; reflexivity. Qed.
+Lemma sub_close_tokens l : sub_close (ttemplate l) = ttemplate (tclose l).
+Proof.
+  destruct brace_facts as (B1 & B2 & _ & _).
+  induction l as [|x l IH]; [reflexivity|].
+  destruct x as [name i|name|k|body|c]; cbn [ttemplate tclose].
+  1-4: cbn [append sub_close]; rewrite B1, B2, IH; cbn [andb]; reflexivity.
+  cbn [sub_close]. rewrite IH, head_close_template. destruct (is_space c && starts_close (tclose l)); reflexivity.
+Qed.
+Theorem normalise_tokens l : normalise_template (ttemplate l) = ttemplate (nrm l).
+Proof. unfold normalise_template, nrm. rewrite sub_ws_tokens, sub_open_tokens, sub_close_tokens. reflexivity. Qed.
+
+(* the passes drop or replace blanks only: the terms stay, no brace appears *)
+Lemma tws_terms l : forall f, term_toks (tws f l) = term_toks l.
+Proof. induction l as [|x l IH]; intros f; [reflexivity|]. destruct x as [| | | |c]; cbn [tws term_toks]; rewrite ?IH; try reflexivity.
+  destruct (is_space c); [destruct f|]; cbn [term_toks]; apply IH. Qed.
+Lemma topen_terms l : forall f, term_toks (topen f l) = term_toks l.
+Proof. induction l as [|x l IH]; intros f; [reflexivity|]. destruct x as [| | | |c]; cbn [topen term_toks]; rewrite ?IH; try reflexivity.
+  destruct (f && is_space c); cbn [term_toks]; apply IH. Qed.
+Lemma tclose_terms l : term_toks (tclose l) = term_toks l.
+Proof. induction l as [|x l IH]; [reflexivity|]. destruct x as [| | | |c]; cbn [tclose term_toks]; rewrite ?IH; try reflexivity.
+  destruct (is_space c && starts_close (tclose l)); cbn [term_toks]; exact IH. Qed.
+Lemma nrm_terms l : term_toks (nrm l) = term_toks l.
+Proof. unfold nrm. rewrite tclose_terms, topen_terms, tws_terms. reflexivity. Qed.
+
+Lemma tws_nobrace l : forall f, nobrace l = true -> nobrace (tws f l) = true.
+Proof.
+  unfold nobrace. induction l as [|x l IH]; intros f H; [reflexivity|]. cbn [forallb] in H. apply andb_true_iff in H as [Hx Hl].
+  destruct x as [| | | |c]; cbn [tws forallb]; rewrite ?(IH _ Hl); try reflexivity.
+  destruct (is_space c); [destruct f|]; cbn [forallb]; rewrite ?(IH _ Hl), ?Hx; reflexivity.
+Qed.
+Lemma topen_nobrace l : forall f, nobrace l = true -> nobrace (topen f l) = true.
+Proof.
+  unfold nobrace. induction l as [|x l IH]; intros f H; [reflexivity|]. cbn [forallb] in H. apply andb_true_iff in H as [Hx Hl].
+  destruct x as [| | | |c]; cbn [topen forallb]; rewrite ?(IH _ Hl); try reflexivity.
+  destruct (f && is_space c); cbn [forallb]; rewrite ?(IH _ Hl), ?Hx; reflexivity.
+Qed.
+Lemma tclose_nobrace l : nobrace l = true -> nobrace (tclose l) = true.
+Proof.
+  unfold nobrace. induction l as [|x l IH]; intros H; [reflexivity|]. cbn [forallb] in H. apply andb_true_iff in H as [Hx Hl].
+  destruct x as [| | | |c]; cbn [tclose forallb]; rewrite ?(IH Hl); try reflexivity.
+  destruct (is_space c && starts_close (tclose l)); cbn [forallb]; rewrite ?(IH Hl), ?Hx; reflexivity.
+Qed.
+Lemma nrm_nobrace l : nobrace l = true -> nobrace (nrm l) = true.
+Proof. intros H. unfold nrm. apply tclose_nobrace, topen_nobrace, tws_nobrace, H. Qed.
+
 (* ================================================================== str(term) and term.code of the tokens *)
-Lemma term_str_tok ty x t : ty = TEndogenous \/ ty = TExogenous -> tok_term ty x = Some t -> term_str t = Some (ntok_text x).
+Definition indexed_ty (ty : ptype) : bool := match ty with TFunction | TKeyword | TVerbatim => false | _ => true end.
+Lemma term_str_indexed name ty i : indexed_ty ty = true -> term_str (mkTerm name ty (Some i)) = Some (term_text name i).
 Proof.
-  intros Hty. destruct x as [name i|name|k|body|c]; cbn [tok_term]; intros E; inversion E; subst; clear E; try reflexivity.
-  unfold term_str. cbn [ttype tindex tname ntok_text]. unfold term_text, idx_body.
-  destruct Hty as [-> | ->]; (destruct i as [z|s]; [destruct (0 <? z)%Z; [|destruct (z =? 0)%Z]|]; cbn [append]; rewrite ?sapp_assoc; reflexivity).
+  intros H. unfold term_str. cbn [ttype tindex tname]. unfold term_text, idx_body.
+  destruct ty; try discriminate; (destruct i as [z|s]; [destruct (0 <? z)%Z; [|destruct (z =? 0)%Z]|]; cbn [append]; rewrite ?sapp_assoc; reflexivity).
 Qed.
-Lemma term_code_tok ty x t : ty = TEndogenous \/ ty = TExogenous -> tok_term ty x = Some t -> term_code t = Some (tok_code x).
+Lemma term_code_indexed name ty i : indexed_ty ty = true ->
+  term_code (mkTerm name ty (Some i)) = Some (tok_code (NTerm name i)).
 Proof.
-  intros Hty E. destruct x as [name i|name|k|body|c]; cbn [tok_term] in E; inversion E; subst; clear E; unfold tok_code; cbn [tok_term].
-  - destruct Hty as [Ht|Ht]; rewrite Ht; destruct i as [z|s]; reflexivity.
-  - reflexivity.
-  - reflexivity.
-  - reflexivity.
+  intros H. unfold tok_code. cbn [tok_term]. unfold term_code.
+  rewrite (term_str_indexed name ty i H), (term_str_indexed name TExogenous i eq_refl). cbn [ttype tindex tname].
+  destruct ty; try discriminate; destruct i; reflexivity.
 Qed.
+Lemma style_type_indexed side s : side = TEndogenous \/ side = TExogenous -> indexed_ty (style_type side s) = true.
+Proof. intros [-> | ->]; destruct s; reflexivity. Qed.
 
 Lemma all_some_app {A} (a b : list (option A)) x y : all_some a = Some x -> all_some b = Some y -> all_some (a ++ b) = Some (x ++ y)%list.
 Proof.
@@ -96,16 +184,16 @@ Proof.
   - destruct (all_some a) as [xs|]; [|discriminate]. inversion Ha; subst. rewrite (IH xs eq_refl Hb). reflexivity.
   - discriminate.
 Qed.
-Lemma strs_of_terms ty l : ty = TEndogenous \/ ty = TExogenous ->
-  all_some (map term_str (tok_terms ty l)) = Some (map ntok_text (term_toks l)) /\
-  all_some (map term_code (tok_terms ty l)) = Some (map tok_code (term_toks l)).
+Lemma strs_of_terms lay ty l : ty = TEndogenous \/ ty = TExogenous ->
+  all_some (map term_str (lay_terms lay ty l)) = Some (map ntok_text (term_toks l)) /\
+  all_some (map term_code (lay_terms lay ty l)) = Some (map tok_code (term_toks l)).
 Proof.
   intros Hty. induction l as [|x l [IH1 IH2]]; [split; reflexivity|].
-  destruct x as [name i|name|k|body|c]; cbn [tok_terms tok_term term_toks map all_some]; [| | | |split; assumption].
-  - rewrite (term_str_tok ty (NTerm name i) _ Hty eq_refl), (term_code_tok ty (NTerm name i) _ Hty eq_refl), IH1, IH2. split; reflexivity.
-  - rewrite (term_str_tok ty (NFunc name) _ Hty eq_refl), (term_code_tok ty (NFunc name) _ Hty eq_refl), IH1, IH2. split; reflexivity.
-  - rewrite (term_str_tok ty (NKw k) _ Hty eq_refl), (term_code_tok ty (NKw k) _ Hty eq_refl), IH1, IH2. split; reflexivity.
-  - rewrite (term_str_tok ty (NVerb body) _ Hty eq_refl), (term_code_tok ty (NVerb body) _ Hty eq_refl), IH1, IH2. split; reflexivity.
+  destruct x as [name i|name|k|body|c]; cbn [lay_terms lay_term tok_term term_toks map all_some]; [| | | |split; assumption].
+  - rewrite (term_str_indexed _ _ _ (style_type_indexed ty _ Hty)), (term_code_indexed _ _ _ (style_type_indexed ty _ Hty)), IH1, IH2. split; reflexivity.
+  - rewrite IH1, IH2. split; reflexivity.
+  - rewrite IH1, IH2. split; reflexivity.
+  - rewrite IH1, IH2. split; reflexivity.
 Qed.
 
 (* ================================================================== the prelude of parse_equation *)
@@ -159,62 +247,90 @@ Proof. sweep. Qed.
 Lemma space_inert : forall c, is_space c = true -> inert c && negb (Ascii.eqb c "=") = true.
 Proof. sweep. Qed.
 
+Lemma bare_follow_nil : bare_follow "" = true. Proof. reflexivity. Qed.
+Lemma bare_follow_eq r : bare_follow (String "=" r) = true.
+Proof. unfold bare_follow, skip_ws. cbn [head_not span_while]. replace (is_space "=") with false by (vm_compute; reflexivity).
+  replace (is_fnc "=") with false by (vm_compute; reflexivity). reflexivity. Qed.
+Lemma bare_follow_blanks W k : blanks W = true -> bare_follow k = true -> bare_follow (W ++ k) = true.
+Proof.
+  intros HW Hk. destruct W as [|w W']; [exact Hk|]. unfold blanks in HW. pose proof HW as HW0. cbn [all_chars] in HW0.
+  apply andb_true_iff in HW0 as [Hw _]. unfold bare_follow in *. apply andb_true_iff in Hk as [Hk Hp].
+  cbn [append head_not]. pose proof (space_not_fnc w Hw) as F. pose proof (space_not_special w Hw) as S.
+  repeat (apply andb_true_iff in S as [S ?]). rewrite F. cbn [andb].
+  match goal with H : negb (Ascii.eqb w "[") = true |- _ => rewrite H end. cbn [andb].
+  unfold skip_ws in *. change (String w (W' ++ k)) with (String w W' ++ k). rewrite (span_while_prefix is_space (String w W') k HW). exact Hp.
+Qed.
+
 Section Fixed.
   Variable lay : layout.
   Variable y : string.
   Variable ky : Z.
-  Variable plus : bool.
-  Hypothesis Hlhs : lay y (IInt ky) = ("", "", plus).         (* no blanks inside the left-hand bracket: finding #22 *)
   Variable ws rhs : list ntok.
   Let lhs : list ntok := NTerm y (IInt ky) :: ws.
   Let q : neq := mkNeq lhs rhs.
-  Let whole : list ntok := (lhs ++ NChr "=" :: rhs)%list.
+  Let whole : list ntok := whole_toks q.
   Hypothesis Hid : is_ident y = true.
   Hypothesis Hkw : kw_free y = true.
   Hypothesis Hshort : short_int ky = true.
+  Hypothesis Hlhs : lhs_lay_ok (lay y (IInt ky)) ky = true.     (* plain NAME[k], no blanks inside: findings #14, #22 *)
   Hypothesis Hws : forallb (fun x => match x with NChr c => is_space c | _ => false end) ws = true.
   Hypothesis Hrhs : dwf_k lay false rhs "" = true.
-  Hypothesis Htext : all_chars text_char_ok (denorm_text lay q) = true.
-  Hypothesis Hpar : count_parens 0 (denorm_text lay q) = Some 0.
-  Hypothesis Hnorm : normal (ttemplate whole) = true.
+  Hypothesis Hscan : cont_scan 0 (denorm_text lay q) = true.
+  Hypothesis Hhash : has_char "#" (denorm_text lay q) = false.
+  Hypothesis Hnb : nobrace whole = true.
+  Hypothesis Hcnt : Nat.eqb (count_char "{" (denorm_text lay q)) (count_char "}" (denorm_text lay q)) = true.
 
   (* the blanks after the assigned term *)
   Definition wtext : string := dflat lay ws.
-  Lemma ws_chars : blanks wtext = true /\ nflat ws = wtext /\ cflat ws = wtext /\ term_toks ws = [] /\ tok_terms TEndogenous ws = []
+  Lemma ws_chars : blanks wtext = true /\ nflat ws = wtext /\ cflat ws = wtext /\ term_toks ws = [] /\ lay_terms lay TEndogenous ws = []
                    /\ ttemplate ws = wtext /\ (forall pw k, dwf_k lay pw ws k = true).
   Proof.
-    unfold wtext, blanks. clear Hrhs Htext Hpar Hnorm. induction ws as [|x l IH]; [repeat split; reflexivity|].
+    unfold wtext, blanks. clear Hrhs Hscan Hhash Hnb Hcnt. induction ws as [|x l IH]; [repeat split; reflexivity|].
     cbn [forallb] in Hws. apply andb_true_iff in Hws as [Hx Hl]. destruct x as [| | | |c]; try discriminate.
     destruct (IH Hl) as (B & N & C & T & K & P & D).
-    cbn [Denorm.dflat Denorm.dtext ntok_text all_chars nflat cflat tok_code term_toks tok_terms tok_term ttemplate append].
+    cbn [Denorm.dflat Denorm.dtext ntok_text all_chars nflat cflat tok_code term_toks lay_terms lay_term tok_term ttemplate append].
     rewrite Hx, B, N, C, T, K, P. repeat split; try reflexivity.
     intros pw k. cbn [Denorm.dwf_k Denorm.dtok_ok ntok_ok]. pose proof (space_inert c Hx) as I. apply andb_true_iff in I as [I _]. rewrite I. cbn [orb andb]. apply D.
   Qed.
 
-  Definition atext : string := y ++ "[" ++ ibody plus (IInt ky) ++ "]".
-  Lemma atext_nospace : all_chars (fun c => negb (is_space c)) atext = true /\ has_char "=" atext = false /\ atext <> "".
+  (* the assigned term as written *)
+  Definition atext : string := dtext lay (NTerm y (IInt ky)).
+  Lemma atext_cases :
+    lstyle (lay y (IInt ky)) = SVar /\
+    ((exists plus, lindex (lay y (IInt ky)) = Some ("", "", plus) /\ atext = y ++ "[" ++ ibody plus (IInt ky) ++ "]") \/
+     (lindex (lay y (IInt ky)) = None /\ atext = y /\ ky = 0%Z)).
   Proof.
-    destruct (ident_nonempty _ Hid) as (c & r & En & Hc & Hall). unfold atext.
+    unfold atext. cbn [Denorm.dtext]. unfold lhs_lay_ok in Hlhs. destruct (lay y (IInt ky)) as [s ix]. cbn [lstyle lindex] in *.
+    destruct s; try discriminate. split; [reflexivity|]. destruct ix as [[[w1 w2] plus]|].
+    - destruct w1; [|discriminate]. destruct w2; [|discriminate]. left. exists plus. split; [reflexivity|].
+      cbn [style_text index_text]. unfold idx_text. cbn [append]. reflexivity.
+    - right. apply Z.eqb_eq in Hlhs. cbn [style_text index_text]. rewrite sapp_nil_r. auto.
+  Qed.
+
+  Lemma atext_nospace : all_chars (fun c => negb (is_space c)) atext = true /\ has_char "=" atext = false /\ atext <> "" /\
+                        exists c r, atext = String c r /\ is_alpha_ c = true.
+  Proof.
+    destruct (ident_nonempty _ Hid) as (c & r & En & Hc & Hall).
     assert (A1 : all_chars (fun c => negb (is_space c) && negb (Ascii.eqb c "=")) y = true)
       by (apply (all_chars_impl is_idc _ y idc_not_space Hall)).
-    assert (A2 : all_chars (fun c => negb (is_space c) && negb (Ascii.eqb c "=")) (ibody plus (IInt ky)) = true)
-      by (apply (all_chars_impl idxc _ _ idxc_not_space_eq (ibody_chars plus ky))).
-    assert (A : all_chars (fun c => negb (is_space c) && negb (Ascii.eqb c "=")) (y ++ "[" ++ ibody plus (IInt ky) ++ "]") = true).
-    { rewrite !all_chars_app, A1, A2. reflexivity. }
-    split; [|split].
+    assert (A : all_chars (fun c => negb (is_space c) && negb (Ascii.eqb c "=")) atext = true).
+    { destruct atext_cases as (_ & [(plus & _ & ->)|(_ & -> & _)]); [|exact A1].
+      rewrite !all_chars_app, A1, (all_chars_impl idxc _ _ idxc_not_space_eq (ibody_chars plus ky)). reflexivity. }
+    split; [|split; [|split]].
     - apply (all_chars_impl _ _ _ (fun c H => proj1 (proj1 (andb_true_iff _ _) H)) A).
     - apply (all_chars_no_char (fun c => negb (is_space c) && negb (Ascii.eqb c "=")) "=" _ eq_refl A).
-    - rewrite En. discriminate.
+    - destruct atext_cases as (_ & [(plus & _ & ->)|(_ & -> & _)]); rewrite En; discriminate.
+    - destruct atext_cases as (_ & [(plus & _ & ->)|(_ & -> & _)]); rewrite En; cbn [append]; eexists; eexists; (split; [reflexivity|exact Hc]).
   Qed.
 
   Let E : string := denorm_text lay q.
 
   Lemma E_shape : E = atext ++ wtext ++ String "=" (dflat lay rhs).
-  Proof. unfold E, denorm_text, q, lhs. cbn [nlhs nrhs Denorm.dflat Denorm.dtext]. rewrite Hlhs. cbn [append]. fold wtext. fold atext. rewrite sapp_assoc. reflexivity. Qed.
+  Proof. unfold E, denorm_text, q, lhs. cbn [nlhs nrhs Denorm.dflat]. fold wtext. fold atext. rewrite sapp_assoc. reflexivity. Qed.
 
   Lemma E_head : exists c r, E = String c r /\ is_alpha_ c = true.
   Proof.
-    destruct (ident_nonempty _ Hid) as (c & r & En & Hc & _). rewrite E_shape. unfold atext. rewrite En. cbn [append].
+    destruct atext_nospace as (_ & _ & _ & c & r & Ea & Hc). rewrite E_shape, Ea. cbn [append].
     eexists. eexists. split; [reflexivity|exact Hc].
   Qed.
 
@@ -224,27 +340,9 @@ Section Fixed.
     apply negb_true_iff in P. unfold is_blank, lstrip_by. cbn [span_while]. rewrite P. reflexivity.
   Qed.
 
-  Lemma text_ok_parts : all_chars (fun c => negb (is_linesep c)) E = true /\ has_char "#" E = false /\
-                        has_char "{" E = false /\ has_char "}" E = false.
-  Proof.
-    fold E in Htext. split; [|split; [|split]].
-    - apply (all_chars_impl text_char_ok _ E); [|exact Htext]. intros c H. unfold text_char_ok in H.
-      repeat (apply andb_true_iff in H as [H ?]). exact H.
-    - apply (all_chars_no_char text_char_ok "#" E eq_refl Htext).
-    - apply (all_chars_no_char text_char_ok "{" E eq_refl Htext).
-    - apply (all_chars_no_char text_char_ok "}" E eq_refl Htext).
-  Qed.
-
-  Lemma E_lines : model_lines E = [E].
-  Proof.
-    destruct text_ok_parts as (Hl & Hh & _ & _). unfold model_lines.
-    rewrite (splitlines_nosep E "" Hl); [|right; destruct E_head as (c & r & -> & _); discriminate].
-    cbn [map srev rev_str append]. rewrite (strip_comments_plain E Hh). reflexivity.
-  Qed.
-
   Lemma E_stmt_ok : stmt_ok E = true.
   Proof.
-    destruct atext_nospace as (HA & _ & HAne). destruct ws_chars as (HW & _).
+    destruct atext_nospace as (HA & _ & HAne & _). destruct ws_chars as (HW & _).
     pose proof (alt_single_assign atext wtext (dflat lay rhs) HAne HA HW) as S. rewrite <- E_shape in S.
     destruct E_head as (c & r & Ee & Hc). unfold stmt_ok. rewrite Ee in *. cbn [stmt_ok_from]. unfold alt_here. rewrite S.
     rewrite !orb_true_r. reflexivity.
@@ -252,115 +350,162 @@ Section Fixed.
 
   Lemma E_split : split_M E = ([E], None).
   Proof.
-    unfold split_M. rewrite E_lines. cbn [split_lines]. unfold split_step. cbn [buffer s0 unmatched complete].
     assert (F : startswith "```" E = false).
     { destruct E_head as (c & r & -> & Hc). unfold startswith. cbn [prefix_rest].
       pose proof (alpha_not_tick c Hc) as T. apply andb_true_iff in T as [T _]. apply andb_true_iff in T as [T _]. apply negb_true_iff in T.
       rewrite Ascii.eqb_sym, T. reflexivity. }
-    rewrite F. cbn [andb]. fold E in Hpar. rewrite Hpar. cbn [Nat.eqb andb rev app join_nl].
-    rewrite E_not_blank, E_stmt_ok. cbn [split_lines unmatched Nat.eqb]. reflexivity.
+    apply (split_one_statement E E_not_blank E_stmt_ok F Hscan Hhash).
   Qed.
 
-  Lemma lhs_dwf k : dwf_k lay false lhs k = true.
+  Lemma lhs_dwf k : bare_follow k = true -> dwf_k lay false lhs k = true.
   Proof.
-    unfold lhs. cbn [Denorm.dwf_k Denorm.dtok_ok]. rewrite Hlhs, Hid, Hkw, (idx_ok_ibody plus ky). unfold short_int in Hshort. rewrite Hshort. cbn [andb all_chars].
-    destruct ws_chars as (_ & _ & _ & _ & _ & _ & D). apply D.
+    intros Hk. unfold lhs. cbn [Denorm.dwf_k Denorm.dtok_ok]. destruct ws_chars as (HW & _ & _ & _ & _ & _ & D). rewrite (D _ k), andb_true_r.
+    unfold short_int in Hshort. rewrite Hid, Hshort, andb_true_r. cbn [andb].
+    destruct atext_cases as (Es & [(plus & Ei & _)|(Ei & _ & Ez)]); rewrite Es, Ei; cbn [style_ok index_ok]; rewrite Hkw; cbn [andb].
+    - rewrite (idx_ok_ibody plus ky). reflexivity.
+    - subst ky. cbn [Z.eqb andb]. fold wtext. apply (bare_follow_blanks wtext k HW Hk).
   Qed.
 
   Lemma whole_dwf : dwf_k lay false whole "" = true.
   Proof.
-    unfold whole. rewrite dwf_k_app, lhs_dwf. cbn [andb Denorm.dwf_k Denorm.dtok_ok ntok_ok].
+    unfold whole, whole_toks, q. cbn [nlhs nrhs]. rewrite dwf_k_app.
+    rewrite lhs_dwf by (cbn [Denorm.dflat Denorm.dtext ntok_text append]; apply bare_follow_eq).
+    cbn [andb Denorm.dwf_k Denorm.dtok_ok ntok_ok].
     replace (inert "=") with true by (vm_compute; reflexivity). cbn [orb andb Denorm.dtext ntok_text last_word].
     replace (is_word "=") with false by (vm_compute; reflexivity). exact Hrhs.
   Qed.
 
   Lemma whole_text : dflat lay whole = E.
-  Proof. unfold whole, E, denorm_text, q. rewrite dflat_app. reflexivity. Qed.
+  Proof. unfold whole, whole_toks, E, denorm_text, q. cbn [nlhs nrhs]. rewrite dflat_app. reflexivity. Qed.
 
-  Lemma E_terms : parse_equation_terms E = Ret (neq_terms q).
+  Lemma E_terms : parse_equation_terms E = Ret (lneq_terms lay q).
   Proof.
     destruct atext_nospace as (_ & HAeq & _). destruct ws_chars as (HW & _ & _ & _ & HK & _).
     assert (Hno : has_char "=" (atext ++ wtext) = false).
     { rewrite has_char_app, HAeq. unfold blanks in HW.
       apply (all_chars_no_char is_space "=" wtext); [vm_compute; reflexivity|exact HW]. }
     unfold parse_equation_terms. rewrite E_shape, <- sapp_assoc, (find_any_app "=" (atext ++ wtext) (dflat lay rhs) Hno).
-    assert (EL : atext ++ wtext = dflat lay lhs).
-    { unfold lhs. cbn [Denorm.dflat Denorm.dtext]. rewrite Hlhs. cbn [append]. reflexivity. }
-    rewrite EL, (dparse_terms lay lhs (lhs_dwf "")), (dparse_terms lay rhs Hrhs).
-    rewrite (replace_type_terms TEndogenous lhs) by discriminate. rewrite (replace_type_terms TExogenous rhs) by discriminate.
-    rewrite (tok_terms_no_invalid TExogenous rhs) by discriminate.
-    unfold neq_terms, q, lhs. cbn [nlhs nrhs tok_terms tok_term]. rewrite HK. cbn [has_type existsb ttype type_eqb orb negb]. reflexivity.
-  Qed.
-
-  Lemma E_template : template E = ttemplate whole.
-  Proof.
-    unfold template. rewrite <- whole_text, (dscan_items lay whole whole_dwf), template_items. apply normal_fixed, Hnorm.
+    assert (EL : atext ++ wtext = dflat lay lhs) by reflexivity.
+    rewrite EL, (dparse_terms lay lhs (lhs_dwf "" bare_follow_nil)), (dparse_terms lay rhs Hrhs).
+    rewrite (replace_type_terms lay TEndogenous lhs) by discriminate. rewrite (replace_type_terms lay TExogenous rhs) by discriminate.
+    rewrite (lay_terms_no_invalid lay TExogenous rhs) by discriminate.
+    unfold lneq_terms, q, lhs. cbn [nlhs nrhs lay_terms lay_term]. rewrite HK. destruct atext_cases as (Es & _). rewrite Es.
+    cbn [style_type has_type existsb ttype type_eqb orb negb]. reflexivity.
   Qed.
 
   Lemma term_toks_app a b : term_toks (a ++ b) = (term_toks a ++ term_toks b)%list.
   Proof. induction a as [|x a IH]; [reflexivity|]. destruct x; cbn [term_toks app]; rewrite IH; reflexivity. Qed.
 
-  Lemma E_strs : all_some (map term_str (neq_terms q)) = Some (map ntok_text (term_toks whole)) /\
-                 all_some (map term_code (neq_terms q)) = Some (map tok_code (term_toks whole)).
+  Lemma E_strs : all_some (map term_str (lneq_terms lay q)) = Some (map ntok_text (term_toks whole)) /\
+                 all_some (map term_code (lneq_terms lay q)) = Some (map tok_code (term_toks whole)).
   Proof.
-    unfold neq_terms, q, whole. cbn [nlhs nrhs]. rewrite !map_app, term_toks_app. cbn [term_toks]. rewrite !map_app.
-    destruct (strs_of_terms TEndogenous lhs (or_introl eq_refl)) as [S1 C1].
-    destruct (strs_of_terms TExogenous rhs (or_intror eq_refl)) as [S2 C2].
+    unfold lneq_terms, q, whole, whole_toks. cbn [nlhs nrhs]. rewrite !map_app, term_toks_app. cbn [term_toks]. rewrite !map_app.
+    destruct (strs_of_terms lay TEndogenous lhs (or_introl eq_refl)) as [S1 C1].
+    destruct (strs_of_terms lay TExogenous rhs (or_intror eq_refl)) as [S2 C2].
     split; apply all_some_app; assumption.
   Qed.
 
-  Lemma dflat_chars P l : all_chars P (dflat lay l) = true -> forallb (fun x => match x with NChr c => P c | _ => true end) l = true.
-  Proof.
-    induction l as [|x l IH]; [reflexivity|]. cbn [Denorm.dflat forallb]. rewrite all_chars_app. intros H. apply andb_true_iff in H as [Hx Hl].
-    rewrite (IH Hl), andb_true_r. destruct x; try reflexivity. cbn [Denorm.dtext ntok_text all_chars] in Hx. rewrite andb_true_r in Hx. exact Hx.
-  Qed.
+  (* the template is normalised as a token list *)
+  Lemma E_template_general : template E = ttemplate (nrm whole).
+  Proof. unfold template. rewrite <- whole_text, (dscan_items lay whole whole_dwf), template_items. apply normalise_tokens. Qed.
 
-  Lemma whole_nobrace : nobrace whole = true.
+  Theorem parse_section_general :
+    parse_equation_M E = of_outcome (equation_symbols (nflat (nrm whole)) (cflat (nrm whole)) (lneq_terms lay q)).
   Proof.
-    pose proof Htext as H. fold E in H. rewrite <- whole_text in H. apply dflat_chars in H. unfold nobrace.
-    rewrite forallb_forall in *. intros x Hx. specialize (H x Hx). destruct x; try reflexivity.
-    unfold text_char_ok in H. apply andb_true_iff in H as [H H4]. apply andb_true_iff in H as [_ H3]. rewrite H3, H4. reflexivity.
-  Qed.
-
-  Lemma whole_nflat : nflat whole = neq_text q.
-  Proof. unfold whole, neq_text, q. rewrite nflat_app. reflexivity. Qed.
-  Lemma cflat_app a b : cflat (a ++ b) = cflat a ++ cflat b.
-  Proof. induction a as [|x a IH]; [reflexivity|]. cbn [cflat app]. rewrite IH, sapp_assoc. reflexivity. Qed.
-  Lemma whole_cflat : cflat whole = neq_code q.
-  Proof. unfold whole, neq_code, q. rewrite cflat_app. reflexivity. Qed.
-
-  Theorem fixed_point_section :
-    parse_equation_M E = of_outcome (equation_symbols (neq_text q) (neq_code q) (neq_terms q)).
-  Proof.
-    destruct text_ok_parts as (_ & _ & Hb1 & Hb2).
     unfold parse_equation_M. rewrite E_not_blank, E_split. cbn [length Nat.eqb negb].
     assert (Hv : head_is "`" E = false).
     { destruct E_head as (c & r & -> & Hc). cbn [head_is].
       pose proof (alpha_not_tick c Hc) as T. apply andb_true_iff in T as [T _]. apply andb_true_iff in T as [T _]. apply negb_true_iff in T. exact T. }
-    rewrite Hv. cbn [andb]. rewrite (count_char_absent "{" E Hb1), (count_char_absent "}" E Hb2). cbn [Nat.eqb negb].
+    rewrite Hv. cbn [andb]. fold E in Hcnt. rewrite Hcnt. cbn [negb].
+    rewrite E_terms, E_template_general. destruct E_strs as [S C]. rewrite S, C. rewrite <- (nrm_terms whole).
+    rewrite (format_weave ntok_text (nrm whole) (nrm_nobrace whole Hnb)), (format_weave tok_code (nrm whole) (nrm_nobrace whole Hnb)).
+    rewrite weave_text, weave_code. reflexivity.
+  Qed.
+
+  Lemma whole_nflat : nflat whole = neq_text q.
+  Proof. unfold whole, whole_toks, neq_text, q. cbn [nlhs nrhs]. rewrite nflat_app. reflexivity. Qed.
+  Lemma cflat_app a b : cflat (a ++ b) = cflat a ++ cflat b.
+  Proof. induction a as [|x a IH]; [reflexivity|]. cbn [cflat app]. rewrite IH, sapp_assoc. reflexivity. Qed.
+  Lemma whole_cflat : cflat whole = neq_code q.
+  Proof. unfold whole, whole_toks, neq_code, q. cbn [nlhs nrhs]. rewrite cflat_app. reflexivity. Qed.
+
+  (* … and when the character skeleton is already in normal form, the texts are those of q itself *)
+  Hypothesis Hnorm : normal (ttemplate whole) = true.
+  Lemma E_template : template E = ttemplate whole.
+  Proof. unfold template. rewrite <- whole_text, (dscan_items lay whole whole_dwf), template_items. apply normal_fixed, Hnorm. Qed.
+
+  Theorem fixed_point_section :
+    parse_equation_M E = of_outcome (equation_symbols (neq_text q) (neq_code q) (lneq_terms lay q)).
+  Proof.
+    unfold parse_equation_M. rewrite E_not_blank, E_split. cbn [length Nat.eqb negb].
+    assert (Hv : head_is "`" E = false).
+    { destruct E_head as (c & r & -> & Hc). cbn [head_is].
+      pose proof (alpha_not_tick c Hc) as T. apply andb_true_iff in T as [T _]. apply andb_true_iff in T as [T _]. apply negb_true_iff in T. exact T. }
+    rewrite Hv. cbn [andb]. fold E in Hcnt. rewrite Hcnt. cbn [negb].
     rewrite E_terms, E_template. destruct E_strs as [S C]. rewrite S, C.
-    rewrite (format_weave ntok_text whole whole_nobrace), (format_weave tok_code whole whole_nobrace).
+    rewrite (format_weave ntok_text whole Hnb), (format_weave tok_code whole Hnb).
     rewrite weave_text, weave_code, whole_nflat, whole_cflat. reflexivity.
   Qed.
 End Fixed.
 
-(* ================================================================== the theorem, from the decidable condition *)
-Theorem normal_form_fixed_point lay q :
-  dq_ok lay q = true -> parse_equation_M (denorm_text lay q) = of_outcome (equation_symbols (neq_text q) (neq_code q) (neq_terms q)).
+(* ================================================================== the theorems, from the decidable conditions *)
+Lemma dq_ok_ws_parts lay y ky ws r :
+  dq_ok_ws lay (mkNeq (NTerm y (IInt ky) :: ws) r) = true ->
+  is_ident y = true /\ kw_free y = true /\ short_int ky = true /\ lhs_lay_ok (lay y (IInt ky)) ky = true /\
+  forallb (fun x => match x with NChr c => is_space c | _ => false end) ws = true /\ dwf_k lay false r "" = true /\
+  cont_scan 0 (denorm_text lay (mkNeq (NTerm y (IInt ky) :: ws) r)) = true /\
+  has_char "#" (denorm_text lay (mkNeq (NTerm y (IInt ky) :: ws) r)) = false /\
+  nobrace (whole_toks (mkNeq (NTerm y (IInt ky) :: ws) r)) = true /\
+  Nat.eqb (count_char "{" (denorm_text lay (mkNeq (NTerm y (IInt ky) :: ws) r))) (count_char "}" (denorm_text lay (mkNeq (NTerm y (IInt ky) :: ws) r))) = true.
 Proof.
-  destruct q as [l r]. unfold dq_ok. cbn [nlhs nrhs]. destruct l as [|[y [ky|s]| | | |] ws]; try discriminate.
-  intros H. apply andb_true_iff in H as [H Hnorm]. apply andb_true_iff in H as [H Hpar]. apply andb_true_iff in H as [H Htext].
-  apply andb_true_iff in H as [H Hrhs]. apply andb_true_iff in H as [H Hws]. apply andb_true_iff in H as [H Hl].
-  apply andb_true_iff in H as [H Hshort]. apply andb_true_iff in H as [Hid Hkw].
-  destruct (lay y (IInt ky)) as [[w1 w2] plus] eqn:El. destruct w1; [|discriminate]. destruct w2; [|discriminate].
-  destruct (count_parens 0 (denorm_text lay (mkNeq (NTerm y (IInt ky) :: ws) r))) as [[|n]|] eqn:Ep; try discriminate.
-  apply (fixed_point_section lay y ky plus El ws r Hid Hkw Hshort Hws Hrhs Htext Ep Hnorm).
+  unfold dq_ok_ws. cbn [nlhs nrhs]. intros H.
+  apply andb_true_iff in H as [H Hcnt]. apply andb_true_iff in H as [H Hnb].
+  apply andb_true_iff in H as [H Hhash]. apply andb_true_iff in H as [H Hscan]. apply andb_true_iff in H as [H Hrhs]. apply andb_true_iff in H as [H Hws].
+  apply andb_true_iff in H as [H Hl]. apply andb_true_iff in H as [H Hshort]. apply andb_true_iff in H as [Hid Hkw].
+  apply negb_true_iff in Hhash. repeat split; assumption.
 Qed.
 
-(* layout does not matter: any two admissible ways of writing the index brackets give the same parse *)
+(* any runs of blanks: the parse depends on the normalised token list only *)
+Theorem parse_denorm_general lay q :
+  dq_ok_ws lay q = true ->
+  parse_equation_M (denorm_text lay q)
+  = of_outcome (equation_symbols (nflat (nrm (whole_toks q))) (cflat (nrm (whole_toks q))) (lneq_terms lay q)).
+Proof.
+  destruct q as [l r]. destruct l as [|[y [ky|s]| | | |] ws]; try discriminate.
+  intros H. destruct (dq_ok_ws_parts lay y ky ws r H) as (Hid & Hkw & Hshort & Hl & Hws & Hrhs & Hscan & Hhash & Hnb & Hcnt).
+  apply (parse_section_general lay y ky ws r Hid Hkw Hshort Hl Hws Hrhs Hscan Hhash Hnb Hcnt).
+Qed.
+
+Theorem normal_form_fixed_point lay q :
+  dq_ok lay q = true ->
+  parse_equation_M (denorm_text lay q) = of_outcome (equation_symbols (neq_text q) (neq_code q) (lneq_terms lay q)).
+Proof.
+  unfold dq_ok. intros H. apply andb_true_iff in H as [H Hnorm].
+  destruct q as [l r]. destruct l as [|[y [ky|s]| | | |] ws]; try discriminate.
+  destruct (dq_ok_ws_parts lay y ky ws r H) as (Hid & Hkw & Hshort & Hl & Hws & Hrhs & Hscan & Hhash & Hnb & Hcnt).
+  apply (fixed_point_section lay y ky ws r Hid Hkw Hshort Hl Hws Hrhs Hscan Hhash Hnb Hcnt Hnorm).
+Qed.
+
+(* layout does not matter: two admissible ways of writing the terms of q (blanks inside { } < > [ ], "+" of a lead, [0] written
+   or not) that agree on which terms are parameters / errors give the same parse *)
 Corollary index_layout_irrelevant lay1 lay2 q :
-  dq_ok lay1 q = true -> dq_ok lay2 q = true -> parse_equation_M (denorm_text lay1 q) = parse_equation_M (denorm_text lay2 q).
-Proof. intros H1 H2. rewrite (normal_form_fixed_point lay1 q H1), (normal_form_fixed_point lay2 q H2). reflexivity. Qed.
+  dq_ok lay1 q = true -> dq_ok lay2 q = true -> lneq_terms lay1 q = lneq_terms lay2 q ->
+  parse_equation_M (denorm_text lay1 q) = parse_equation_M (denorm_text lay2 q).
+Proof. intros H1 H2 Ht. rewrite (normal_form_fixed_point lay1 q H1), (normal_form_fixed_point lay2 q H2), Ht. reflexivity. Qed.
+
+(* horizontal whitespace does not matter: two statements whose token lists normalise to the same list (blank runs collapsed,
+   blanks after "(" and before ")" dropped) and have the same terms parse to the same result, whatever the layouts of the terms *)
+Corollary whitespace_layout_irrelevant lay1 lay2 q1 q2 :
+  dq_ok_ws lay1 q1 = true -> dq_ok_ws lay2 q2 = true ->
+  nrm (whole_toks q1) = nrm (whole_toks q2) -> lneq_terms lay1 q1 = lneq_terms lay2 q2 ->
+  parse_equation_M (denorm_text lay1 q1) = parse_equation_M (denorm_text lay2 q2).
+Proof. intros H1 H2 Hn Ht. rewrite (parse_denorm_general lay1 q1 H1), (parse_denorm_general lay2 q2 H2), Hn, Ht. reflexivity. Qed.
+
+(* in the canonical layout every term is a plain variable *)
+Lemma canon_terms side l : lay_terms canon side l = tok_terms side l.
+Proof. induction l as [|x l IH]; [reflexivity|]. destruct x; cbn [lay_terms lay_term tok_terms tok_term canon lstyle style_type]; rewrite IH; reflexivity. Qed.
+Lemma canon_neq_terms q : lneq_terms canon q = neq_terms q.
+Proof. unfold lneq_terms, neq_terms. rewrite !canon_terms. reflexivity. Qed.
 
 (* ================================================================== what the symbol-table loop can attach to a symbol *)
 Definition tame (eqn code : string) (s : symbol) : Prop :=
@@ -421,6 +566,12 @@ Corollary fixed_point_symbols lay q syms :
   forall s, In s syms -> tame (neq_text q) (neq_code q) s.
 Proof.
   intros Hq Hp. rewrite (normal_form_fixed_point lay q Hq) in Hp.
-  destruct (equation_symbols (neq_text q) (neq_code q) (neq_terms q)) as [l|] eqn:E; [|discriminate].
+  destruct (equation_symbols (neq_text q) (neq_code q) (lneq_terms lay q)) as [l|] eqn:E; [|discriminate].
   inversion Hp; subst. apply (equation_symbols_texts _ _ _ _ E).
 Qed.
+
+(* the property's own reading: the canonical de-normalisation NAME[0] / NAME[+k] / NAME[-k], every term a plain variable *)
+Theorem normal_form_fixed_point_canon q :
+  dq_ok canon q = true ->
+  parse_equation_M (denorm_text canon q) = of_outcome (equation_symbols (neq_text q) (neq_code q) (neq_terms q)).
+Proof. intros H. rewrite (normal_form_fixed_point canon q H), canon_neq_terms. reflexivity. Qed.
